@@ -255,6 +255,16 @@ def joint_view(case, shared):
     if not np.array_equal(means.astype(np.float64), want):
         out.add("call:joint_mean", f"__call__ means {means.tolist()} differ from the model's exact {want.tolist()} ({tagc})")
     lo, hi, softhi = soft_bounds(model)
+    # the learned bounds themselves: documented ranges, monotone in their raw parameters (D4)
+    (l0, l1), (h0, h1) = exp["lo_range"], exp["hi_range"]
+    if not (np.all((lo >= l0) & (lo <= l1)) and np.all((hi >= h0) & (hi <= h1))):
+        out.add("bounds:range", f"learned bounds outside their ranges: min_log_var={lo.tolist()} not in [{l0},{l1}] or max_log_var={hi.tolist()} not in [{h0},{h1}] ({tagc})")
+    for a in range(O):
+        for b in range(O):
+            if exp["lo_order"][a] < exp["lo_order"][b] and not lo[a] < lo[b]:
+                out.add("bounds:monotone", f"min_log_var not increasing in its raw parameter: {par['rmin']} -> {lo.tolist()} ({tagc})")
+            if exp["hi_order"][a] < exp["hi_order"][b] and not hi[a] < hi[b]:
+                out.add("bounds:monotone", f"max_log_var not increasing in its raw parameter: {par['rmax']} -> {hi.tolist()} ({tagc})")
     if not np.all(np.isfinite(lvs)):
         out.add("call:logvar_finite", f"non-finite log-variance {lvs.tolist()} ({tagc})")
     else:
@@ -331,6 +341,9 @@ def check_view(case, shared):
             out.add("base_predict:mean", f"base_predict mean {m_i.tolist()} is not slice {i} of the joint pass {jm.tolist()} ({tagc})")
         if list(v_i.shape) != exp["member_var_shape"]:
             out.add(K_BP, f"base_predict({kind}) variance has shape {v_i.shape}, the model's is {exp['member_var_shape']} (one variance per output); values {v_i.tolist()} vs joint slice {jvar.tolist()} ({tagc})")
+            # keep checking the values: if the extra axis is an outer broadcast over outputs, its diagonal must be the member's variance
+            if list(v_i.shape) == exp["member_var_shape"] + [O] and not bits_equal(np.diagonal(v_i, axis1=-2, axis2=-1), jvar):
+                out.add("base_predict:variance_value", f"base_predict variance diagonal {np.diagonal(v_i, axis1=-2, axis2=-1).tolist()} is not exp(log-variance) of slice {i} of the joint pass {jvar.tolist()} ({tagc})")
         elif not bits_equal(v_i, jvar):
             out.add("base_predict:variance_value", f"base_predict variance {v_i.tolist()} is not exp(log-variance) of slice {i} of the joint pass {jvar.tolist()} ({tagc})")
 
@@ -350,6 +363,12 @@ def check_view(case, shared):
                 f"base_distribution({kind}) has batch shape {bs}, event shape {es}, stddev shape {list(dsd.shape)}; the model's are {exp['dist_batch_shape']}, {exp['dist_event_shape']}, {exp['member_var_shape']}; "
                 f"stddev {dsd.tolist()} vs joint slice {jstd.tolist()} ({tagc})",
             )
+            # keep checking the values behind the extra axis: means are broadcast rows, the stddev diagonal is the member's
+            if list(dsd.shape) == exp["member_var_shape"] + [O]:
+                if not all(bits_equal(dm[..., r, :], jm) for r in range(O)):
+                    out.add("base_distribution:mean", f"distribution mean rows {dm.tolist()} are not slice {i} of the joint pass {jm.tolist()} ({tagc})")
+                if not bits_equal(np.diagonal(dsd, axis1=-2, axis2=-1), jstd):
+                    out.add("base_distribution:stddev", f"distribution stddev diagonal {np.diagonal(dsd, axis1=-2, axis2=-1).tolist()} is not exp(logvar/2) of slice {i} of the joint pass {jstd.tolist()} ({tagc})")
         else:
             if not bits_equal(dm, jm):
                 out.add("base_distribution:mean", f"distribution mean {dm.tolist()} is not slice {i} of the joint pass {jm.tolist()} ({tagc})")
@@ -400,6 +419,8 @@ def plan_views(pool, quick):
 def part_views(rep, pool):
     quick = rep.tier == "quick"
     cases = pool.emitted("views")
+    # two outputs and batches first (stable sort, groups stay contiguous): the first reported case of a key is the most telling one
+    cases.sort(key=lambda c: (c["cfg"]["O"] != 2, c["inp"]["kind"] != "batch"))
     n = 0
     nontrivial = 0
     group = {}
